@@ -1304,7 +1304,12 @@ def _getElementsByTagName(self, tagname):
 
     # Look in attributes dictionary for document fragments as well
     if self.attributes and list(self.attributes.keys()):
+        children = self.childNodes if self.hasChildNodes() else None
         for item in list(self.attributes.values()):
+            # The `self` attribute can be the child list itself; its
+            # elements are found below, do not list them twice
+            if item is children:
+                continue
             if getattr(item, 'tagName', None) in tagname:
                  output.append(item)
             if hasattr(item, 'getElementsByTagName'):
